@@ -49,14 +49,15 @@ zip_in_protected_header(json_t *json)
 {
     json_auto_t *dec = NULL;
     json_t *prt = NULL;
-    char *z = NULL;
+    const char *z = NULL;
 
     prt = json_object_get(json, "protected");
     if (prt && json_is_string(prt))
         prt = dec = jose_b64_dec_load(prt);
 
     /* Check if we have "zip" in the protected header. */
-    if (json_unpack(prt, "{s:s}", "zip", &z) == -1)
+    z = json_string_value(json_object_get(prt, "zip"));
+    if (!z)
         return false;
 
     /* We have "zip", but let's validate the alg also. */
